@@ -472,6 +472,7 @@ def shard_main(tier, seed, shard, nshards, state):
 
 def coverage_extra(tier, stats):
     return {
-        "exhaustive": True,
-        "exhaustive_note": "within each generated scenario every crash point (before each file-system mutation and after every byte of every write) was executed",
+        "exhaustive": False,
+        "exhaustive_within_each_scenario": True,
+        "exhaustive_note": "scenarios are generated (sampled); within each generated scenario every crash point (before each file-system mutation and after every byte of every write) was executed",
     }
